@@ -163,6 +163,14 @@ def shapes(tier="quick"):
     out.append(Shape(name(), "struct", [("", "named", [("G", False), ("core::marker::PhantomData<&'a ()>", False)])],
                      generics="<'gc, 'a>", gc_lifetime="'gc"))
     out.append(Shape(name(), "struct", [("", "named", [("Vec<T>", False), ("Option<U>", False)])], generics="<T, U>"))
+    # require_static on a field of generic type: the expansion must demand `T: 'static`, whatever the bound override
+    # (seed C15-c dropped the predicate whenever `bound = ...` was given)
+    out.append(Shape(name(), "struct", [("", "named", [("T", True), ("G", False)])], generics="<'gc, T>", bound=""))
+    out.append(Shape(name(), "enum", [("A", "tuple", [("T", True), ("I", False)]), ("B", "unit", [])], generics="<T>", bound=""))
+    for bound in (None, "where U: Collect<'gc>", "where T: Clone, U: Collect<'gc>"):
+        out.append(Shape(name(), "struct", [("", "named", [("T", True), ("U", False), ("G", False)])], generics="<'gc, T, U>", bound=bound))
+        out.append(Shape(name(), "enum", [("A", "tuple", [("I", False), ("T", True)]), ("B", "named", [("U", False), ("W", False)])],
+                         generics="<'gc, T, U>", bound=bound))
     if tier != "quick":
         # every subset of positions marked require_static, 1..4 fields, pointer-bearing fields elsewhere
         for k in (1, 2, 3, 4):
